@@ -65,8 +65,9 @@ func (e *Env) Run(c Concrete, tok string) Obs {
 		}
 	}
 	base := map[string]bool{} // entries with a watched name that exist anyway (fixture, other software)
-	if replace && len(watch) > 0 {
-		for _, p := range e.scan(tok, watch) {
+	full := c.FullScan
+	if replace {
+		for _, p := range e.scan(tok, watch, o.SentPath, full && len(watch) > 0) {
 			if tok != "" && strings.Contains(filepath.Base(p), tok) {
 				o.Before = append(o.Before, p)
 			} else {
@@ -138,7 +139,7 @@ func (e *Env) Run(c Concrete, tok string) Obs {
 		}
 		// observation point "result code on the wire": the server has not seen it yet
 		if replace {
-			o.AtResult = diff(e.scan(tok, watch))
+			o.AtResult = dedupe(diff(e.scan(tok, watch, o.SentPath, full)))
 		} else if _, err := os.Lstat(o.ServerPath); err == nil {
 			o.AtResult = []string{o.ServerPath}
 		}
@@ -171,7 +172,7 @@ func (e *Env) Run(c Concrete, tok string) Obs {
 	case <-time.After(10 * time.Second):
 	}
 	if replace {
-		o.After = diff(e.scan(tok, watch))
+		o.After = dedupe(diff(e.scan(tok, watch, o.SentPath, full)))
 		e.cleanup(o.After)
 	} else if o.ServerPath != "" {
 		if _, err := os.Lstat(o.ServerPath); err == nil {
@@ -185,6 +186,18 @@ func (e *Env) Run(c Concrete, tok string) Obs {
 		_ = os.RemoveAll(realDir)
 	}
 	return o
+}
+
+func dedupe(ps []string) []string {
+	seen := map[string]bool{}
+	var out []string
+	for _, p := range ps {
+		if !seen[p] {
+			seen[p] = true
+			out = append(out, p)
+		}
+	}
+	return out
 }
 
 var badModes = []os.FileMode{0o755, 0o750, 0o701, 0o770, 0o710, 0o777}
